@@ -58,6 +58,7 @@ fn exec_encoder(plan: &Plan, st: &mut Stats) -> Result<(), Violation> {
         }
     }
     let mut sliders = 0u64;
+    let mut node_times: Vec<f64> = Vec::new();
     let mut lifetimes: Vec<(f64, f64)> = Vec::new();
     for h in map.hit_objects.iter_mut() {
         let start = h.start_time;
@@ -91,6 +92,7 @@ fn exec_encoder(plan: &Plan, st: &mut Stats) -> Result<(), Violation> {
                     GameMode::Osu | GameMode::Catch => {
                         for k in 0..=sl.span_count() {
                             allowed.push(start + f64::from(k) * span_dur);
+                            node_times.push(start + f64::from(k) * span_dur);
                         }
                     }
                     GameMode::Mania => allowed.push(start),
@@ -102,6 +104,41 @@ fn exec_encoder(plan: &Plan, st: &mut Stats) -> Result<(), Violation> {
     st.add("steps.ops_applied", sliders);
     if sliders > 0 {
         st.inc("ops.encoder-walked-slider-events");
+    }
+    // Two callers, one iterator: the osu! and the catch encoder paths both place samples at the head / repeat / tail
+    // events of the same slider, so for the same objects the [TimingPoints] section they write must be the same text.
+    if matches!(mode, GameMode::Osu | GameMode::Catch) && sliders > 0 {
+        let section = |m: &Beatmap, as_mode: GameMode| -> Option<String> {
+            let mut c = m.clone();
+            c.mode = as_mode;
+            let mut o = Vec::new();
+            c.encode(&mut o).ok()?;
+            let t = String::from_utf8_lossy(&o).into_owned();
+            let a = t.find("[TimingPoints]")?;
+            let z = t[a..].find("\n[Colours]").map_or(t.len(), |x| a + x);
+            Some(t[a..z].to_string())
+        };
+        if let (Some(a), Some(b)) = (section(&map, GameMode::Osu), section(&map, GameMode::Catch)) {
+            st.inc("ops.osu-vs-catch-caller-differential");
+            if a != b {
+                st.inc("probe.osu-and-catch-sections-differ");
+                // Verdict, deliberately narrow: only a closed-form NODE time (head / repeat / tail of some slider) that has
+                // a control point under one caller and none under the other. Differences in values, or at other times
+                // (e.g. if an encoder also sampled ticks, whose spacing differs per mode), are not judged.
+                let times = |t: &str| -> Vec<f64> { t.lines().skip(1).filter_map(|l| l.split(',').next().and_then(|f| f.trim().parse::<f64>().ok())).filter(|x| x.is_finite()).collect() };
+                let (ta, tb) = (times(&a), times(&b));
+                let near = |v: &[f64], t: f64| v.iter().any(|x| *x == t || (x - t).abs() <= 1e-6 + 1e-9 * t.abs());
+                for &t in &node_times {
+                    if t.is_finite() && near(&ta, t) != near(&tb, t) {
+                        return Err(Violation::new(
+                            "C20/encoder-callers-disagree",
+                            "osu-vs-catch",
+                            format!("node time {t} (closed-form head / repeat / tail time of a slider) has a control point when the map is encoded as {} but none as {}: the two callers of the slider event iterator do not see the same head / repeat / tail events", if near(&ta, t) { "osu!" } else { "catch" }, if near(&ta, t) { "catch" } else { "osu!" }),
+                        ));
+                    }
+                }
+            }
+        }
     }
     let mut out = Vec::new();
     if map.encode(&mut out).is_err() {
